@@ -220,7 +220,8 @@ class BitStringEncoder(AbstractItemEncoder):
         while stop < valueLength:
             start = stop
             stop = min(start + maxChunkSize * 8, valueLength)
-            substrate += encodeFun(alignedValue[start:stop], asn1Spec, **options)
+            # fragments are value objects carrying their own (base) tag
+            substrate += encodeFun(alignedValue[start:stop], None, **options)
 
         return substrate, True, True
 
@@ -260,7 +261,7 @@ class OctetStringEncoder(AbstractItemEncoder):
 
             asn1Spec = value.clone(tagSet=tagSet)
 
-        elif not isOctetsType(value):
+        else:
             baseTag = asn1Spec.tagSet.baseTag
 
             # strip off explicit tags
